@@ -231,6 +231,15 @@ func genC11SVG(r *core.Rand) c11Host {
 	sb.WriteString(">")
 	n := r.Range(1, 3)
 	for i := 0; i < n; i++ {
+		if r.Chance(1, 4) {
+			// an empty style element with a type of its own (no payload, so no slot): its type must not leak into
+			// the style elements that follow
+			sb.WriteString("<style type=\"" + r.Pick([]string{"text/less", "text/x-custom", "text/css"}) + "\"" + r.Pick([]string{"/>", "></style>"}))
+			if r.Chance(1, 2) {
+				// character data right behind it is not style content
+				sb.WriteString("t { u : v }")
+			}
+		}
 		if r.Bool() {
 			payload := r.Pick([]string{"a{fill:red}", "rect { stroke : blue }", ".c{opacity:.5}"})
 			mt := docType
@@ -593,7 +602,9 @@ func c11OutputSlots(lang, out string) ([]string, string) {
 						txt += evs[j].Data
 					}
 				}
-				slots = append(slots, "svgstyle:"+txt)
+				if txt != "" { // an empty style element carries no payload (the generator writes such elements with a type of their own)
+					slots = append(slots, "svgstyle:"+txt)
+				}
 			}
 			for _, a := range e.Attrs {
 				if a.Name == "style" {
